@@ -406,6 +406,36 @@ def r177(P, rep):
     for a0, s in deleters.items():
         for (un, fname, line) in sorted(s):
             rep.ob('R17.7', '%s:%s:delete-only-macros' % (un, fname), a0 == '&macros' and fname == 'undef_macro', 'a name table other than the macro table (%s) is deleted from' % a0, where='%s:%d' % (un, line))
+    # the `#pragma once` memo: a key is in that table only because the directive was seen in that file
+    try:
+        from . import c10
+        from ..lib_c10 import Toks as _TM, register_nested_enums as _rne
+    except ImportError:
+        c10 = None
+    pu = P.unit('preprocess.c')
+    once = set()
+    if c10 is not None:
+        try:
+            once = {str(t).lstrip('&') for t in c10._pragma_once_tables(P, pu, _TM(pu))}
+        except Exception as e:
+            rep.undecided('R17.7', 'preprocess.c:pragma-once-table', 'the table written by `#pragma once` could not be identified: %s' % e)
+    if once:
+        nput = 0
+        for fname, fd in pu.functions.items():
+            for c in fd.calls():
+                if c.callee() in ('hashmap_put', 'hashmap_put2') and c.args() and c.args()[0].src().lstrip('&') in once:
+                    nput += 1
+                    guarded = False
+                    for a in c.ancestors():
+                        if a.kind == 'IfStmt':
+                            lits = {x.str_value() for x in a.inner[0].walk() if x.kind == 'StringLiteral'}
+                            if 'once' in lits:
+                                guarded = True
+                    rep.ob('R17.7', 'preprocess.c:%s:pragma-once-table-writer' % fname, guarded,
+                           'the `#pragma once` table (%s) gets a key outside the `#pragma once` directive arm: a lookup then finds a key no directive put there (e.g. a file skipped once because its guard macro was defined stays skipped after #undef)' % c.args()[0].src(),
+                           where='preprocess.c:%d' % c.line)
+        if nput == 0:
+            rep.undecided('R17.7', 'preprocess.c:pragma-once-table', 'no writer of the `#pragma once` table found')
     # add_macro installs a fresh, fully initialised Macro
     pu = P.unit('preprocess.c')
     if 'add_macro' not in pu.functions or 'undef_macro' not in pu.functions or 'find_macro' not in pu.functions:
